@@ -446,4 +446,229 @@ Qed.
 
 Lemma find_cex_sound sk sched : find_cex sk = Some sched ->
   exists k, In (k, None) (t_log (trun sk cex_reqs (tinit cex_reqs [[0%nat]] 1) sched)).
-Proof. intros H. apply find_first_sound in H. now apply no_match_sound. Qed.
+Proof. unfold find_cex. intros H. apply find_first_sound in H. now apply no_match_sound. Qed.
+
+(* ------------------------------------------------------------------ mutual exclusion on the table *)
+Section Race.
+  Variables (sk : tskel) (reqs : list req).
+  Hypothesis Hsafe : tx_safeb sk = true.
+  Notation Rq k := (rq reqs k).
+
+  (* by its program counter: the thread is between Lock and Unlock / between the two halves of a map access *)
+  Definition inside (t : tthread) : bool :=
+    match t with
+    | TWriter (Some k) pc _ =>
+        needs (Rq k) && (((2 <=? pc) && (pc <=? 4)) || (q_fail (Rq k) && (7 <=? pc) && (pc <=? 9)))%nat
+    | TReader rpc _ _ => ((2 <=? rpc) && (rpc <=? 6))%nat
+    | _ => false
+    end.
+  Definition inmap (t : tthread) : bool :=
+    match t with
+    | TWriter (Some k) pc _ => needs (Rq k) && ((pc =? 3) || (q_fail (Rq k) && (pc =? 8)))%nat
+    | TReader rpc _ _ => ((rpc =? 3) || (rpc =? 5))%nat
+    | _ => false
+    end.
+
+  Lemma inmap_inside t : inmap t = true -> inside t = true.
+  Proof.
+    destruct t as [[k|] pc todo|rpc h f|k d]; cbn; try discriminate.
+    - destruct (needs (Rq k)), (q_fail (Rq k)); cbn; try discriminate;
+        destruct pc as [|[|[|[|[|[|[|[|[|pc]]]]]]]]]; cbn; intros H; try discriminate H; auto.
+    - destruct rpc as [|[|[|[|[|[|[|rpc]]]]]]]; cbn; intros H; try discriminate H; auto.
+  Qed.
+
+  Definition ok_thr (s : tstate) (i : nat) (t : tthread) : Prop :=
+    (inside t = true <-> t_lk s = Some i) /\ (inmap t = true <-> t_inuse s = Some i).
+
+  Record Inv1 (s : tstate) : Prop := {
+    r_raced : t_raced s = false;
+    r_thr : forall i t, nth_error (t_ths s) i = Some t -> ok_thr s i t;
+    r_use : forall h, t_inuse s = Some h -> exists t, nth_error (t_ths s) h = Some t }.
+
+  (* the moving thread i changes the lock / the marker only from or to itself *)
+  Lemma others s s' i t' :
+    Inv1 s -> t_ths s' = upd i t' (t_ths s) ->
+    (t_lk s' = t_lk s \/ (t_lk s = None /\ t_lk s' = Some i) \/ (t_lk s = Some i /\ t_lk s' = None)) ->
+    (t_inuse s' = t_inuse s \/ (t_inuse s = None /\ t_inuse s' = Some i) \/ (t_inuse s = Some i /\ t_inuse s' = None)) ->
+    forall j tj, j <> i -> nth_error (t_ths s') j = Some tj -> ok_thr s' j tj.
+  Proof.
+    intros HI Eths Hl Hu j tj Hne Hj. rewrite Eths, nth_upd_other in Hj by congruence.
+    destruct (r_thr _ HI j tj Hj) as (H1 & H2). split.
+    - destruct Hl as [->|[(E & ->)|(E & ->)]]; [exact H1| |]; rewrite E in H1;
+        (split; [intros H; apply H1 in H; congruence|intros H; congruence]).
+    - destruct Hu as [->|[(E & ->)|(E & ->)]]; [exact H2| |]; rewrite E in H2;
+        (split; [intros H; apply H2 in H; congruence|intros H; congruence]).
+  Qed.
+
+  Lemma finish s s' i t t' :
+    Inv1 s -> nth_error (t_ths s) i = Some t -> t_ths s' = upd i t' (t_ths s) -> t_raced s' = false ->
+    (t_lk s' = t_lk s \/ (t_lk s = None /\ t_lk s' = Some i) \/ (t_lk s = Some i /\ t_lk s' = None)) ->
+    (t_inuse s' = t_inuse s \/ (t_inuse s = None /\ t_inuse s' = Some i) \/ (t_inuse s = Some i /\ t_inuse s' = None)) ->
+    ok_thr s' i t' -> Inv1 s'.
+  Proof.
+    intros HI Ei Eths Hr Hl Hu Hi. constructor.
+    - exact Hr.
+    - intros j tj Hj. destruct (Nat.eq_dec j i) as [->|Hne].
+      + rewrite Eths, (nth_upd_same _ _ _ _ Ei) in Hj. injection Hj as <-. exact Hi.
+      + eapply others; eauto.
+    - intros h Hh. rewrite Eths.
+      assert (Hex : exists t0, nth_error (t_ths s) h = Some t0).
+      { destruct Hu as [E|[(_ & E)|(_ & E)]]; rewrite E in Hh.
+        - now apply (r_use _ HI).
+        - injection Hh as <-. eauto.
+        - discriminate. }
+      destruct Hex as (t0 & E0). destruct (Nat.eq_dec i h) as [->|Hne].
+      + eexists. eapply nth_upd_same; eauto.
+      + exists t0. now rewrite nth_upd_other.
+  Qed.
+
+  (* the five kinds of steps *)
+  Lemma step_neutral s s' i t t' :
+    Inv1 s -> nth_error (t_ths s) i = Some t -> t_ths s' = upd i t' (t_ths s) ->
+    t_raced s' = t_raced s -> t_lk s' = t_lk s -> t_inuse s' = t_inuse s ->
+    inside t' = inside t -> inmap t' = inmap t -> Inv1 s'.
+  Proof.
+    intros HI Ei Eths Er El Eu Hin Hmap. eapply finish; eauto.
+    - rewrite Er. apply (r_raced _ HI).
+    - destruct (r_thr _ HI i t Ei) as (H1 & H2). unfold ok_thr. now rewrite Hin, Hmap, El, Eu.
+  Qed.
+
+  Lemma step_lock s s' i t t' :
+    Inv1 s -> nth_error (t_ths s) i = Some t -> t_ths s' = upd i t' (t_ths s) ->
+    t_raced s' = t_raced s -> t_lk s = None -> t_lk s' = Some i -> t_inuse s' = t_inuse s ->
+    inside t' = true -> inmap t' = false -> inmap t = false -> Inv1 s'.
+  Proof.
+    intros HI Ei Eths Er El El' Eu Hin Hmap Hmap0. eapply finish; eauto.
+    - rewrite Er. apply (r_raced _ HI).
+    - destruct (r_thr _ HI i t Ei) as (H1 & H2). unfold ok_thr. rewrite Hin, Hmap, El', Eu. rewrite Hmap0 in H2.
+      split; [tauto|exact H2].
+  Qed.
+
+  Lemma step_unlock s s' i t t' :
+    Inv1 s -> nth_error (t_ths s) i = Some t -> t_ths s' = upd i t' (t_ths s) ->
+    t_raced s' = t_raced s ->
+    t_lk s' = (match t_lk s with Some h => if Nat.eqb h i then None else Some h | None => None end) ->
+    t_inuse s' = t_inuse s ->
+    inside t = true -> inside t' = false -> inmap t' = false -> inmap t = false -> Inv1 s'.
+  Proof.
+    intros HI Ei Eths Er El' Eu Hin0 Hin Hmap Hmap0.
+    destruct (r_thr _ HI i t Ei) as (H1 & H2). assert (El : t_lk s = Some i) by tauto.
+    rewrite El, Nat.eqb_refl in El'. eapply finish; eauto.
+    - rewrite Er. apply (r_raced _ HI).
+    - unfold ok_thr. rewrite Hin, Hmap, El', Eu. rewrite Hmap0 in H2. split; [split; discriminate|exact H2].
+  Qed.
+
+  Lemma step_enter s s' i t t' :
+    Inv1 s -> nth_error (t_ths s) i = Some t -> t_ths s' = upd i t' (t_ths s) ->
+    t_raced s' = (match t_inuse s with Some _ => true | None => t_raced s end) ->
+    t_lk s' = t_lk s -> t_inuse s' = Some i ->
+    inside t = true -> inside t' = true -> inmap t = false -> inmap t' = true -> Inv1 s'.
+  Proof.
+    intros HI Ei Eths Er El Eu' Hin0 Hin Hmap0 Hmap.
+    destruct (r_thr _ HI i t Ei) as (H1 & H2). assert (Elk : t_lk s = Some i) by tauto.
+    (* nobody is inside a map access: it would have to hold the lock *)
+    assert (Eu : t_inuse s = None).
+    { destruct (t_inuse s) as [h|] eqn:E; [|reflexivity]. exfalso.
+      destruct (r_use _ HI h E) as (th & Eh). destruct (r_thr _ HI h th Eh) as (H3 & H4).
+      assert (Hm : inmap th = true) by tauto. apply inmap_inside in Hm. apply H3 in Hm.
+      rewrite Elk in Hm. injection Hm as ->. rewrite Ei in Eh. injection Eh as <-.
+      rewrite Hmap0 in H4. assert (false = true) by tauto. discriminate. }
+    rewrite Eu in Er. eapply finish; eauto.
+    - rewrite Er. apply (r_raced _ HI).
+    - unfold ok_thr. rewrite Hin, Hmap, El, Eu'. tauto.
+  Qed.
+
+  Lemma step_exit s s' i t t' :
+    Inv1 s -> nth_error (t_ths s) i = Some t -> t_ths s' = upd i t' (t_ths s) ->
+    t_raced s' = t_raced s -> t_lk s' = t_lk s ->
+    t_inuse s' = (match t_inuse s with Some h => if Nat.eqb h i then None else Some h | None => None end) ->
+    inside t' = inside t -> inmap t = true -> inmap t' = false -> Inv1 s'.
+  Proof.
+    intros HI Ei Eths Er El Eu' Hin Hmap0 Hmap.
+    destruct (r_thr _ HI i t Ei) as (H1 & H2). assert (Eu : t_inuse s = Some i) by tauto.
+    rewrite Eu, Nat.eqb_refl in Eu'. eapply finish; eauto.
+    - rewrite Er. apply (r_raced _ HI).
+    - unfold ok_thr. rewrite Hin, Hmap, El, Eu'. split; [exact H1|split; discriminate].
+  Qed.
+
+  Ltac tfields := cbn [t_lk t_inuse t_raced t_tab t_ths t_sent t_failed t_queue t_answered t_reg t_clean t_del t_log].
+  Ltac side := unfold set_ths; tfields; cbn [advance next_request];
+               rewrite ?(reader_code_safe sk Hsafe); cbn [code_rd length Nat.eqb];
+               unfold inside, inmap; lazy beta iota;
+               try match goal with E : needs (rq reqs _) = _ |- _ => rewrite ?E end;
+               try match goal with E : q_fail (rq reqs _) = _ |- _ => rewrite ?E end;
+               cbn; try reflexivity; try eassumption.
+  Ltac ths_goal := unfold set_ths; tfields; cbn [advance next_request];
+               rewrite ?(reader_code_safe sk Hsafe); cbn [code_rd length Nat.eqb]; reflexivity.
+  Ltac neutral HI Ei := eapply (step_neutral _ _ _ _ _ HI Ei); [ths_goal|..]; side.
+  Ltac lock HI Ei := eapply (step_lock _ _ _ _ _ HI Ei); [ths_goal|..]; side.
+  Ltac unlock HI Ei := eapply (step_unlock _ _ _ _ _ HI Ei); [ths_goal|..]; side.
+  Ltac enter HI Ei := eapply (step_enter _ _ _ _ _ HI Ei); [ths_goal|..]; side.
+  Ltac exit HI Ei := eapply (step_exit _ _ _ _ _ HI Ei); [ths_goal|..]; side.
+
+  Lemma tstep_inv1 s i : Inv1 s -> Inv1 (tstep sk reqs s i).
+  Proof.
+    intros HI. unfold tstep. destruct (nth_error (t_ths s) i) as [t|] eqn:Ei; [|exact HI].
+    destruct t as [[k|] pc todo|rpc held found|k d]; cbn [fetch]; try exact HI.
+    - (* writer *)
+      rewrite req_code_safe by assumption.
+      destruct (needs (Rq k)) eqn:En; [destruct (q_fail (Rq k)) eqn:Efl|].
+      + unfold code_f. destruct pc as [|[|[|[|[|[|[|[|[|[|[|pc]]]]]]]]]]]; cbn [nth_error]; try exact HI; try (destruct pc; exact HI).
+        * neutral HI Ei.
+        * destruct (t_lk s) eqn:El; [exact HI|]. lock HI Ei.
+        * enter HI Ei.
+        * exit HI Ei.
+        * unlock HI Ei.
+        * rewrite Efl. neutral HI Ei.
+        * destruct (t_lk s) eqn:El; [exact HI|]. lock HI Ei.
+        * enter HI Ei.
+        * exit HI Ei.
+        * unlock HI Ei.
+        * destruct todo as [|k' rest]; neutral HI Ei; rewrite ?andb_false_r; reflexivity.
+      + unfold code_nf. destruct pc as [|[|[|[|[|[|[|pc]]]]]]]; cbn [nth_error]; try exact HI; try (destruct pc; exact HI).
+        * neutral HI Ei.
+        * destruct (t_lk s) eqn:El; [exact HI|]. lock HI Ei.
+        * enter HI Ei.
+        * exit HI Ei.
+        * unlock HI Ei.
+        * rewrite Efl. neutral HI Ei.
+        * destruct todo as [|k' rest]; neutral HI Ei; rewrite ?andb_false_r; reflexivity.
+      + unfold code_nn. destruct pc as [|[|[|pc]]]; cbn [nth_error]; try exact HI; try (destruct pc; exact HI).
+        * neutral HI Ei.
+        * destruct (q_fail (Rq k)); neutral HI Ei.
+        * destruct todo as [|k' rest]; neutral HI Ei; rewrite ?andb_false_r; reflexivity.
+    - (* reader *)
+      rewrite reader_code_safe by assumption. unfold code_rd.
+      destruct rpc as [|[|[|[|[|[|[|rpc]]]]]]]; cbn [nth_error]; try exact HI; try (destruct rpc; exact HI).
+      + destruct (t_queue s); [exact HI|]. neutral HI Ei.
+      + destruct (t_lk s) eqn:El; [exact HI|]. lock HI Ei.
+      + enter HI Ei.
+      + destruct held as [k|]; exit HI Ei.
+      + enter HI Ei.
+      + cbn [held_of found_of]. destruct held as [k|]; [destruct found|]; exit HI Ei.
+      + unlock HI Ei.
+    - (* peer *)
+      destruct d; [exact HI|].
+      destruct (mem k (t_sent s) && needs (Rq k) && negb (mem k (t_answered s))); [|exact HI].
+      neutral HI Ei.
+  Qed.
+
+  Lemma tinit_inv1 writers nr : Inv1 (tinit reqs writers nr).
+  Proof.
+    unfold tinit. constructor; tfields; [reflexivity| |discriminate].
+    intros i t Hi. apply nth_error_In in Hi. unfold ok_thr. tfields.
+    assert (inside t = false /\ inmap t = false) as (-> & ->).
+    { rewrite !in_app_iff in Hi. destruct Hi as [Hi|[Hi|Hi]].
+      - apply in_map_iff in Hi. destruct Hi as (l & <- & _). unfold writer_of. destruct l; cbn; [auto|].
+        rewrite !andb_false_r. auto.
+      - apply repeat_spec in Hi. subst. auto.
+      - apply in_map_iff in Hi. destruct Hi as (k & <- & _). auto. }
+    split; split; discriminate.
+  Qed.
+
+  (* no two threads are ever inside accesses to the transaction table at the same time *)
+  Theorem no_race writers nr sched : t_raced (trun sk reqs (tinit reqs writers nr) sched) = false.
+  Proof.
+    apply r_raced. unfold trun. apply srun_invariant; [intros; now apply tstep_inv1|apply tinit_inv1].
+  Qed.
+End Race.
